@@ -337,7 +337,7 @@ pub fn def(ctx: &Ctx) -> PropDef {
         let hl = t.pick(16, 40);
         subs.push(PSub::boxed(
             format!("clone/{}", ty.name()),
-            t.pick(1500, 100_000),
+            t.pick(4000, 400_000),
             move || {
                 (gens::det_spec(ty, true), gens::pre_advance(&info), gens::ops(&info, hl, 600, true), gens::ops(&info, hl, 600, true))
                     .prop_map(|(spec, pre, hist, cont)| CloneCase { spec, pre, hist, cont })
@@ -350,7 +350,7 @@ pub fn def(ctx: &Ctx) -> PropDef {
         }
         subs.push(PSub::boxed(
             format!("eq-pairs/{}", ty.name()),
-            t.pick(1500, 100_000),
+            t.pick(4000, 400_000),
             move || {
                 let mode = prop_oneof![
                     2 => Just(PairMode::Same),
@@ -369,13 +369,13 @@ pub fn def(ctx: &Ctx) -> PropDef {
     }
     subs.push(PSub::boxed(
         "hc128-position",
-        t.pick(3000, 200_000),
+        t.pick(8000, 800_000),
         || (gens::seed_for(Ty::Hc128, true), 0usize..70, 1usize..=16, 1usize..=16).prop_map(|(seed, block, ca, cb)| HcPosCase { seed, block, ca, cb }).boxed(),
         check_hc_pos,
     ));
     subs.push(PSub::boxed(
         "cores",
-        t.pick(3000, 150_000),
+        t.pick(8000, 600_000),
         || {
             (0u8..3, gens::seed_for(Ty::Isaac, true), 0usize..=5, 0usize..=4, proptest::option::weighted(0.6, (0usize..1024, any::<u64>())))
                 .prop_map(|(which, seed, blocks_before, blocks_after, craft)| CoreCase { which, seed, blocks_before, blocks_after, craft })
